@@ -84,22 +84,32 @@ func c08WErr(err error) string {
 	return "err"
 }
 
-// c08Base dumps the committed trie: entries, child tries keyed by root hash, root hash.
+// c08Base dumps the committed trie: entries, the child trie reachable from every child-root entry
+// of the main trie (`!` = no object under the stored hash, `?` = GetChild fails), root hash.
 func c08Base(ts *TrieState) string {
 	tr := ts.Trie().(*inmemory_trie.InMemoryTrie)
 	var sb strings.Builder
-	sb.WriteString("E=" + c08Map(tr.Entries()))
-	kids := tr.GetChildTries()
-	hs := make([]string, 0, len(kids))
-	byHash := map[string]trie.Trie{}
-	for h, c := range kids {
-		s := vhHex(h[:])
-		hs = append(hs, s)
-		byHash[s] = c
+	ents := tr.Entries()
+	sb.WriteString("E=" + c08Map(ents))
+	ks := make([]string, 0)
+	for k := range ents {
+		if strings.HasPrefix(k, c08ChildPrefix) {
+			ks = append(ks, k)
+		}
 	}
-	sort.Strings(hs)
-	for _, h := range hs {
-		sb.WriteString(" C" + h[:8] + "=" + c08Map(byHash[h].Entries()))
+	sort.Strings(ks)
+	for _, k := range ks {
+		ck := []byte(k[len(c08ChildPrefix):])
+		sb.WriteString(" C" + vhHex(ck) + "=")
+		child, err := tr.GetChild(ck)
+		switch {
+		case err != nil:
+			sb.WriteString("?")
+		case child == nil:
+			sb.WriteString("!")
+		default:
+			sb.WriteString(c08Map(child.Entries()))
+		}
 	}
 	rh, err := tr.Hash()
 	if err != nil {
@@ -135,7 +145,7 @@ func c08Snap(ts *TrieState, alpha string) string {
 	}
 	parts = append(parts, c08One(ts, "ents"))
 	for _, c := range kids {
-		parts = append(parts, c08One(ts, "ckeys "+vhHex(c)+" -"), c08One(ts, "croot "+vhHex(c)))
+		parts = append(parts, c08One(ts, "ckeys "+vhHex(c)+" -"))
 		for _, k := range inKeys {
 			parts = append(parts, c08One(ts, "cget "+vhHex(c)+" "+vhHex(k)),
 				c08One(ts, "cnext "+vhHex(c)+" "+vhHex(k)))
